@@ -937,6 +937,15 @@ package xmpp
 //@   cancellable[C04]
 //@   callsite (net.Conn).SetDeadline#1
 //@     assert[C04] arg0 == conn && arg1 == aLongTimeAgo
+// ... and the deadline stays there: I/O that starts after the cancellation
+// fails as well (the deadline is cleared by the stop function when negotiation
+// is over, not by the watchdog)
+//@   ghost fired bool = false
+//@   ghost last time.Time
+//@   callsite (net.Conn).SetDeadline#*
+//@     after: fired = true
+//@     after: last = arg1
+//@   ensures[C04] fired ==> last == aLongTimeAgo
 //@ func setWriteDeadline$1
 //@   cancellable[C04]
 //@   callsite (net.Conn).SetWriteDeadline#1
